@@ -156,6 +156,10 @@ func ssoAdversarial(r *core.Run, prop string) {
 	// a first assertion of more than a thousand elements (the signature library's traversal
 	// budget) in the first history message
 	big := t.Int(16, "adv.hist.big") == 1
+	// a lean first history message: the (trusted, signing) IdP leaves out an Issuer - of the first assertion,
+	// of every assertion, or of the Response. Whatever the SP makes of such a message, nothing it returns as
+	// validated may come from anywhere but the signed element itself.
+	lean := t.Int(12, "adv.hist.lean")
 	s := NewStd(r)
 	s.DrawLive()
 	untrusted := &world.IdP{Name: "u"}
@@ -216,6 +220,17 @@ func ssoAdversarial(r *core.Run, prop string) {
 				m.Assertions[0].HasAttrStmt = true
 				m.Assertions[0].Attrs = append(m.Assertions[0].Attrs, world.LAttr{Name: "bulk", Values: vals})
 				r.Fault("assertion_beyond_traversal_budget")
+			}
+			if i == 0 && lean >= 1 && lean <= 3 {
+				for k, a := range m.Assertions {
+					if lean == 2 || (lean == 1 && k == 0) {
+						a.Issuer = nil
+					}
+				}
+				if lean == 3 {
+					m.Issuer = nil
+				}
+				r.Probe("lean_history_message")
 			}
 			mk := func() *world.SigOpts {
 				if t.Chance(800, "adv.hist.plainsig") || (big && i == 0) {
